@@ -259,6 +259,11 @@ Definition er_rem_euclid (x y : er) : er :=
   | _, _ => ENaN
   end.
 
+(* Interval::quadrant at exact arithmetic: floor(2 x / pi) mod 4 *)
+Definition er_quadrant (x : er) : quad :=
+  let q := er_rem_euclid (er_floor (er_div (er_mul x (EFin 2)) (EFin PI))) (EFin 4) in
+  if er_eqb q (EFin 1) then Q1 else if er_eqb q (EFin 2) then Q2 else if er_eqb q (EFin 3) then Q3 else Q0.
+
 (* ---- the instance ------------------------------------------------------------ *)
 (* [rnd] / [mix] model rng::rand / rng::mix on bit patterns; every theorem is
    proved for arbitrary total functions (irand needs rnd to land in [0,1]). *)
@@ -278,7 +283,7 @@ Definition er_fl_gen (rnd : er -> er) (mix : er -> er -> er) : FL er :=
      fl_exp := er_exp; fl_ln := er_ln;
      fl_atan2 := er_atan2; fl_rem_euclid := er_rem_euclid;
      fl_bits_eq := er_same;
-     fl_rand := rnd; fl_mix := mix |}.
+     fl_rand := rnd; fl_mix := mix; fl_quadrant := er_quadrant |}.
 
 Definition er_fl : FL er := er_fl_gen (fun _ => EFin 0) (fun _ _ => EFin 0).
 
